@@ -132,23 +132,6 @@ Proof.
     + apply Bool.andb_true_iff in H as [H1 H2]. right. split; [now apply int_discb_ok|now apply lit_okb_ok].
 Qed.
 
-Fixpoint default_lastb (l : list string) : bool :=
-  match l with
-  | [] => true
-  | x :: r => if String.eqb x "default" then match r with [] => true | _ => false end else default_lastb r
-  end.
-
-Lemma default_lastb_ok l :
-  default_lastb l = true -> forall pre post, l = pre ++ "default"%string :: post -> post = [].
-Proof.
-  induction l as [|x r IH]; intros H pre post E; [destruct pre; discriminate|].
-  cbn [default_lastb] in H. destruct pre as [|p pre]; cbn [app] in E; inversion E; subst.
-  - rewrite String.eqb_refl in H. destruct post; [reflexivity|discriminate].
-  - destruct (String.eqb_spec p "default") as [->|_].
-    + destruct (pre ++ "default"%string :: post) eqn:C; [destruct pre; discriminate|discriminate].
-    + eapply IH; [exact H|reflexivity].
-Qed.
-
 Definition union_allb (A : ast) (u : union_t) : bool :=
   disc_okb A u && nodupb (arm_names u) && negb (mem "default" (arm_names u)) &&
   forallb (fun c => pos_okb (uc_value c) false && forallb (label_okb A u) (uc_values c)) (un_cases u) &&
@@ -156,8 +139,7 @@ Definition union_allb (A : ast) (u : union_t) : bool :=
   | Some c => pos_okb (uc_value c) false && negb (mem "default" (un_void u))
   | None => true
   end &&
-  forallb (fun l => String.eqb l "default" || label_okb A u l) (un_void u) &&
-  default_lastb (un_void u).
+  forallb (fun l => String.eqb l "default" || label_okb A u l) (un_void u).
 
 Definition typedef_okb (n : string) (t : typedef_t) : bool :=
   basic_type_eqb (unwrap_array (td_alias t)) (Ident n) &&
@@ -238,14 +220,13 @@ Proof.
     intros n u G. specialize (Hget n _ G). unfold type_okb in Hget.
     apply Bool.andb_true_iff in Hget as [_ Ht]. unfold union_allb in Ht.
     repeat (apply Bool.andb_true_iff in Ht as [Ht ?]).
-    split; [|split; [|split]].
+    split; [|split].
     + intros c l Hc Hl.
       match goal with X : forallb _ (un_cases u) = true |- _ => pose proof (proj1 (forallb_forall _ _) X c Hc) as Y end.
       apply Bool.andb_true_iff in Y as [_ Y]. apply label_okb_ok. exact (proj1 (forallb_forall _ _) Y l Hl).
     + intros l Hl Hnd.
       match goal with X : forallb _ (un_void u) = true |- _ => pose proof (proj1 (forallb_forall _ _) X l Hl) as Y end.
       apply Bool.orb_true_iff in Y as [Y|Y]; [apply String.eqb_eq in Y; contradiction|now apply label_okb_ok].
-    + now apply default_lastb_ok.
     + intros c Hc Hin. match goal with X : match un_default u with _ => _ end = true |- _ => rewrite Hc in X;
         apply Bool.andb_true_iff in X as [_ X]; apply mem_In in Hin; rewrite Hin in X; discriminate end.
 Qed.
